@@ -27,6 +27,7 @@ type c02Step struct {
 	Kind  int      `json:"kind"` // 0 begin, 1 tx, 2 end
 	OK    bool     `json:"ok"`
 	Upd   []c02Rec `json:"upd"`
+	Side  []c02Rec `json:"side,omitempty"`
 	Allow string   `json:"allow"`
 	Auth  []int    `json:"auth"`
 	H     int64    `json:"h"`
@@ -52,6 +53,7 @@ type c02Case struct {
 	EOA     []int    `json:"eoa"`
 	Curs    []string `json:"curs"`
 	Gen     []c02Rec `json:"gen"`
+	GenSide []c02Rec `json:"gen_side,omitempty"`
 	Steps   []c02Step `json:"steps"`
 	Unknown []string `json:"unknown,omitempty"`
 	Bad     []string `json:"bad,omitempty"`
@@ -105,11 +107,12 @@ func c02NewRunner(name string, world [3]int, customize func(*GenesisSpec)) *c02R
 	rep.InitChain()
 	r.cur = r.observe()
 	r.c.Gen = r.in.recs(r.cur.Led)
+	r.c.GenSide = r.in.recs(r.cur.Side)
 	return r
 }
 
 func (r *c02Runner) step(kind int, before, after *c02View) *c02Step {
-	s := &c02Step{Kind: kind, OK: true, Upd: r.in.diff(before.Led, after.Led), Allow: "0", Auth: []int{}, H: r.rep.H}
+	s := &c02Step{Kind: kind, OK: true, Upd: r.in.diff(before.Led, after.Led), Side: r.in.diff(before.Side, after.Side), Allow: "0", Auth: []int{}, H: r.rep.H}
 	r.c.Steps = append(r.c.Steps, *s)
 	return &r.c.Steps[len(r.c.Steps)-1]
 }
@@ -247,11 +250,19 @@ func c02Witness(name string, w *World) *History {
 		s.block([][]byte{txPropWithdraw(u1, "wwd", oltAmt("-1000000000000000000"), w.Poor[0].Addr, s.memo())}, "prop withdraw -1 OLT to a poor beneficiary")
 		s.empty(1)
 	case "withdraw_reward_negative":
-		// WITHDRAW_REWARD for a "validator" address that is no validator, negative amount, signed by an account holding 0.002 OLT
-		s.empty(2)
+		// WITHDRAW_REWARD by a real validator with MATURED rewards (rwcum_balance_ > 0 after two reward intervals): negative,
+		// beyond-int64 (2^64-2 narrows to -2, 2^64+1 to 1), zero, unknown-currency and ordinary amounts; and by an account
+		// holding 0.002 OLT for an address that is no validator
+		s.empty(12)
+		v0 := w.Vals[0]
 		p := w.Poor[0]
-		s.block([][]byte{txWithdrawReward(ValSpec{Val: p, Stake: p}, oltAmt("-1"), s.memo())}, "withdraw validator reward -1 OLT by a poor non-validator")
-		s.block([][]byte{txWithdrawReward(w.Vals[0], oltAmt("-1"), s.memo())}, "withdraw validator reward -1 OLT by a validator's stake account")
+		s.block([][]byte{txWithdrawReward(v0, oltAmt("-1"), s.memo()), txWithdrawReward(v0, oltAmt("18446744073709551614"), s.memo())},
+			"withdraw validator reward -1", "withdraw validator reward 2^64-2 (narrowed to -2)")
+		s.block([][]byte{txWithdrawReward(v0, oltAmt("18446744073709551617"), s.memo()), txWithdrawReward(v0, oltAmt("0"), s.memo()),
+			txWithdrawReward(v0, curAmt("XYZ", "1"), s.memo()), txWithdrawReward(v0, curAmt("ETH", "1"), s.memo()), txWithdrawReward(v0, oltAmt("2"), s.memo())},
+			"withdraw validator reward 2^64+1 (narrowed to 1)", "withdraw validator reward 0", "withdraw validator reward 1 XYZ", "withdraw validator reward 1 ETH", "withdraw validator reward 2")
+		s.block([][]byte{txWithdrawReward(ValSpec{Val: p, Stake: p}, oltAmt("-1"), s.memo()), txWithdrawReward(v0, oltAmt("-9223372036854775808"), s.memo())},
+			"withdraw validator reward -1 by a poor non-validator", "withdraw validator reward -2^63")
 		s.empty(1)
 	case "olvm_foreign_from":
 		// an OLVM transaction whose payload names ANOTHER account as From (it would pay value + gas), signed by the attacker's key;
@@ -351,7 +362,7 @@ func c02RunHistory(name string, world [3]int, h *History) (*c02Case, map[string]
 
 func c02CoqCase(c *c02Case) string {
 	var b strings.Builder
-	fmt.Fprintf(&b, "{| c_eoa := %s; c_ncur := %d%%N;\n c_gen := %s;\n c_steps := [\n", c02CoqNs(c.EOA), len(c.Curs), c02CoqRecs(c.Gen))
+	fmt.Fprintf(&b, "{| c_eoa := %s; c_ncur := %d%%N;\n c_gen := %s; c_gen_side := %s;\n c_steps := [\n", c02CoqNs(c.EOA), len(c.Curs), c02CoqRecs(c.Gen), c02CoqRecs(c.GenSide))
 	for i, s := range c.Steps {
 		m := "None"
 		if s.Model != "" {
@@ -361,8 +372,8 @@ func c02CoqCase(c *c02Case) string {
 		if amt == "" {
 			amt = "0"
 		}
-		fmt.Fprintf(&b, "  {| s_kind := %d%%N; s_ok := %v; s_upd := %s; s_allow := %s; s_auth := %s; s_tk := %d%%N; s_amt := %s; s_fin := %s; s_m := %s |}",
-			s.Kind, s.OK, c02CoqRecs(s.Upd), c02Z(s.Allow), c02CoqNs(s.Auth), s.TK, c02Z(amt), c02CoqNs(s.Fin), m)
+		fmt.Fprintf(&b, "  {| s_kind := %d%%N; s_ok := %v; s_upd := %s; s_side := %s; s_allow := %s; s_auth := %s; s_tk := %d%%N; s_amt := %s; s_fin := %s; s_m := %s |}",
+			s.Kind, s.OK, c02CoqRecs(s.Upd), c02CoqRecs(s.Side), c02Z(s.Allow), c02CoqNs(s.Auth), s.TK, c02Z(amt), c02CoqNs(s.Fin), m)
 		if i+1 < len(c.Steps) {
 			b.WriteString(";\n")
 		}
